@@ -31,6 +31,7 @@
       → #<idx> <lease'> <renew'> <ttl seconds>
 -/
 import GunYu.Model.Lease
+import GunYu.Model.LeaseTicker
 namespace GunYu.Drive.C15
 open GunYu GunYu.Lease
 
@@ -87,6 +88,8 @@ def parseEv (s : String) : Option (Ev × String × Option Bytes) :=
   | ["p", "x", k, i, _] => do let k ← Hex.decode k; let i ← Hex.decode i; pure (.resign k i, "p", some k)
   | ["p", "l", k, _, _] => do let k ← Hex.decode k; pure (.leader k, "p", some k)
   | ["g", _] => pure (.tick 0, "g", none)
+  -- cluster lease store: the slot of the key moves to another node (with its keys): nothing the model sees
+  | ["mv", k, _] => do let k ← Hex.decode k; pure (.tick 0, "mv", some k)
   | ["lc", k, i, a, _] => do
     let k ← Hex.decode k; let i ← Hex.decode i; let a ← parseBool a
     pure (.lostCampaign k i a, "lc", some k)
@@ -173,6 +176,11 @@ def handle : List String → Option (List String)
     match r.toNat?, lease.toNat?, ago.toNat?, n.toNat?, toks.mapM parse with
     | some r, some lease, some ago, some n, some sc =>
       let o := tickerRun (role == "L") r (leaseHoldMs lease r) ago n sc
+      -- the model with call durations (Model/LeaseTicker.lean), all durations 0, must say the same
+      let od := tickerRunD srcParams (role == "L") r (leaseHoldMs lease r) ago (n * r + r / 2) none false
+        (sc.map fun a => { res := a, dur := 0 })
+      if od.calls != o.calls || od.closed != o.closed || od.returned != o.returned then
+        some [s!"#{idx} MODELS-DISAGREE tickerRun calls={o.calls} tickerRunD calls={od.calls}"] else
       let calls := if o.calls.isEmpty then "." else ",".intercalate (o.calls.map toString)
       let closed := match o.closed with
         | some (t, e) => s!"{t}:{errStr e}"
@@ -198,6 +206,7 @@ def handle : List String → Option (List String)
     | _, _ => some [s!"#{idx} bad-op"]
   | "shared" :: _ => some []       -- monitor-only op (one client, two keys, stalled reply)
   | "contend" :: _ => some []      -- monitor-only op (two hosts' configurations; no model output)
+  | "contendsrc" :: _ => some []   -- monitor-only op (one source spelled differently in two configurations)
   | ["cfgfix", idx, group, lease, renew] =>
     -- (*SyncConfig).fix: a cluster section without groupName is dropped, otherwise ClusterConfig.fix
     if group == "0" then some [s!"#{idx} nocluster"] else
